@@ -10,10 +10,11 @@
   D4  SV/CTRL    no Rust surface syntax: the type parser's fall-through (TypeStructure::Custom of the remaining text) is reached only by text that
                  was validated as a plain identifier
 """
+import json
 import re
 
 from common import Rule, V, finish
-from srclib import walk, walk_block, lit_str, expr_text, stmt_exprs, pat_bindings
+from srclib import walk, walk_block, lit_str, expr_text, stmt_exprs, pat_bindings, pat_text
 from svlib import SVEval, render, leaves
 from tplpaths import Templates, Path, consistent
 from tpltypes import Typing
@@ -1150,6 +1151,58 @@ def chain_ok(chain):
     return bool(chain) and chain[0] == "\\" and {'"', "\n", "\r"} <= set(chain)
 
 
+CHAR_PATS = {"'\\\\'": "\\", "'\"'": '"', "'\\\"'": '"', "'\\n'": "\n", "'\\r'": "\r", "'\\t'": "\t"}
+
+
+def escaper_ok(S, fn, depth=0):
+    """does fn escape text for a double-quoted JS literal?  Either the `.replace` chain (backslash first, then \" \\n \\r), or one pass over the
+    characters with a `match` that maps each of \\ \" \\n \\r to a backslash sequence and keeps every other character as it is."""
+    if chain_ok(replace_chain(S, fn)):
+        return True
+    for m in walk_block(fn.body):
+        if m.get("k") != "match":
+            continue
+        table = {}
+        keeps = False
+        for arm in m["arms"]:
+            pts = [x.strip() for x in pat_text(arm["pat"]).split("|")]
+            lits = [lit_str(x) for x in walk(arm["body"]) if lit_str(x) is not None]
+            def char_of(t_):
+                if t_ in CHAR_PATS:
+                    return CHAR_PATS[t_]
+                try:
+                    v_ = json.loads(t_)
+                except ValueError:
+                    return None
+                return v_ if isinstance(v_, str) and len(v_) == 1 else None
+            if arm["pat"].get("k") not in ("ident", "wild") and all(char_of(p_) is not None for p_ in pts):
+                if len(lits) == 1 and len(lits[0]) == 2 and lits[0][0] == "\\":
+                    for p_ in pts:
+                        table[char_of(p_)] = lits[0]
+                else:
+                    table = None
+                    break
+            elif arm["pat"].get("k") in ("ident", "wild") and not arm.get("guard"):
+                nm = arm["pat"].get("name")
+                bt = expr_text(arm["body"])
+                keeps = bool(nm) and (re.search(r"\bpush\(\s*%s\s*\)" % re.escape(nm), bt) is not None or bt.strip() in (nm, "%s.to_string()" % nm, "vec![%s]" % nm)) \
+                    or (nm is None and re.search(r"\bpush\(\s*%s\s*\)" % re.escape(expr_text(m["expr"])), bt) is not None)
+            else:
+                table = None
+                break
+        if table and keeps and {"\\", '"', "\n", "\r"} <= set(table):
+            over_chars = any(e.get("k") == "mcall" and e["method"] == "chars" for e in walk_block(fn.body))
+            if over_chars:
+                return True
+    if depth < 2:
+        for e in walk_block(fn.body):
+            if e.get("k") == "call" and e["func"].get("k") == "path":
+                for h in [x for x in S.fns if x.name == e["func"]["segs"][-1] and x.body is not None and x.file == fn.file]:
+                    if escaper_ok(S, h, depth + 1):
+                        return True
+    return False
+
+
 def registered_filters(S):
     """filter name -> Rust fn, from tera.register_filter("name", fn) calls"""
     out = {}
@@ -1180,48 +1233,78 @@ def is_ident_guard(S, cond, file):
     return None
 
 
+def ident_guard_fn(S, name, file):
+    """is `name` a function (of that file) that accepts exactly identifier-shaped text: a test on the first character and `.all(..)` over alphanumerics"""
+    for g in [y for y in S.fns if y.name == name and y.body is not None and y.file == file]:
+        txt = " ".join(expr_text(e) for e in walk_block(g.body))
+        has_all = any(e.get("k") == "mcall" and e["method"] == "all" for e in walk_block(g.body))
+        first = any(e.get("k") == "mcall" and e["method"] in ("is_some_and", "map_or", "is_some_and") for e in walk_block(g.body)) or "next()" in txt
+        alnum = re.search(r"is_(ascii_)?alphanumeric\(\)", txt) and re.search(r"is_(ascii_)?alphabetic\(\)", txt)
+        neg = any(e.get("k") == "unary" and e["op"] == "!" for e in walk_block(g.body))
+        if has_all and first and alnum and not neg:
+            return g.qname
+    return None
+
+
 def filter_effects(S, rule):
-    """-> {filter name: effect}; effects: 'escape' (removes \" \\ line breaks), 'key' (identifier or quoted literal), 'access' (.ident or ["literal"])"""
+    """-> {filter name: effect}; effects: 'escape' (removes \" \\ line breaks), 'key' (identifier or quoted literal), 'access' (.ident or ["literal"]).
+    Decided on the string shapes of the filter's return paths (SV), so that if/else, early returns and let-else spell the same filter."""
     eff = {}
+    ev = SVEval(S)
     for name, fn in registered_filters(S).items():
         if name == "escape_js":
-            chain = replace_chain(S, fn)
-            if chain_ok(chain):
+            if escaper_ok(S, fn):
                 eff[name] = "escape"
-                rule.ok("escape_js filter: backslash first, then \", \\n, \\r")
+                rule.ok("escape_js filter: \\ \" \\n \\r each become a backslash sequence (backslash handled first / in one pass)")
             else:
-                rule.bad(V(rule.id, fn.qname, "escape-chain:%s" % chain, "the escape_js filter's chain %s does not escape backslash first and cover \", \\n, \\r" % chain))
+                rule.bad(V(rule.id, fn.qname, "escape-chain:%s" % replace_chain(S, fn), "the escape_js filter does not escape backslash first and cover \", \\n, \\r"))
             continue
-        # identifier-or-quoted filters
-        for e in walk_block(fn.body):
-            if e.get("k") != "if" or e["cond"].get("k") == "letcond":
+        try:
+            paths = ev.fn_paths(fn)
+        except Exception:       # noqa: an unhandled construct: the filter simply gets no effect (its holes stay unclassified)
+            continue
+        ident_val = quoted_val = None
+        guard = None
+        shape_bad = None
+        for conds, sv in paths:
+            if not (sv[0] == "call" and sv[1].split("::")[-1] == "String" and len(sv[2]) == 1):
                 continue
-            guard = is_ident_guard(S, e["cond"], fn.file)
-            if not guard:
-                continue
-            then_fmt = [x for x in walk_block(e["then"]) if x.get("k") == "macro" and x["name"] == "format"]
-            then_plain = any(x.get("k") == "mcall" and x["method"] in ("to_string", "to_owned") for x in walk_block(e["then"])) and not then_fmt
-            els = e.get("else")
-            else_fmt = [x for x in walk(els) if x.get("k") == "macro" and x["name"] == "format"] if els else []
-            if len(else_fmt) != 1 or not else_fmt[0].get("args"):
-                continue
-            frame = lit_str(else_fmt[0]["args"][0])
-            arg = else_fmt[0]["args"][1] if len(else_fmt[0]["args"]) > 1 else None
-            escaped = False
-            if arg is not None and arg.get("k") == "call" and arg["func"].get("k") == "path":
-                for g in [y for y in S.fns if y.name == arg["func"]["segs"][-1] and y.body is not None and y.file == fn.file]:
-                    escaped = chain_ok(replace_chain(S, g))
-            if not escaped:
-                rule.bad(V(rule.id, fn.qname, "quoted-branch-unescaped:%s" % name, "filter %s quotes non-identifiers without a valid escaper" % name))
-                continue
-            if frame == "\"{}\"" and then_plain:
-                eff[name] = "key"
-                rule.ok("%s filter: identifier (guard %s) or escaped string literal" % (name, guard))
-            elif frame == "[\"{}\"]" and len(then_fmt) == 1 and lit_str(then_fmt[0]["args"][0]) == ".{}":
-                eff[name] = "access"
-                rule.ok("%s filter: .identifier (guard %s) or [\"escaped literal\"]" % (name, guard))
-            else:
-                rule.bad(V(rule.id, fn.qname, "filter-shape:%s:%s" % (name, frame), "filter %s has an unexpected shape (frame %r)" % (name, frame)))
+            g_pos = g_neg = None
+            for c in conds:
+                m = re.match(r"^(not\()?(\w+)\((\w+)\)\)?$", c)
+                if m and ident_guard_fn(S, m.group(2), fn.file):
+                    guard = ident_guard_fn(S, m.group(2), fn.file)
+                    if m.group(1):
+                        g_neg = True
+                    else:
+                        g_pos = True
+            val = sv[2][0]
+            if g_pos:
+                ident_val = val
+            elif g_neg:
+                quoted_val = val
+        if guard is None or ident_val is None or quoted_val is None:
+            continue
+
+        def pieces_(v):
+            return v[1] if v[0] == "cat" else [v]
+        qp = pieces_(quoted_val)
+        esc_calls = [x for x in qp if x[0] == "call"]
+        frame = "".join(x[1] if x[0] == "lit" else "{}" for x in qp)
+        escaped = len(esc_calls) == 1 and any(escaper_ok(S, g) for g in S.fns if g.name == esc_calls[0][1].split("::")[-1] and g.body is not None and g.file == fn.file)
+        if not escaped:
+            rule.bad(V(rule.id, fn.qname, "quoted-branch-unescaped:%s" % name, "filter %s quotes non-identifiers without a valid escaper" % name))
+            continue
+        ip = pieces_(ident_val)
+        iframe = "".join(x[1] if x[0] == "lit" else "{}" for x in ip)
+        if frame == "\"{}\"" and iframe == "{}" and ip[0][0] == "var":
+            eff[name] = "key"
+            rule.ok("%s filter: identifier (guard %s) or escaped string literal" % (name, guard))
+        elif frame == "[\"{}\"]" and iframe == ".{}":
+            eff[name] = "access"
+            rule.ok("%s filter: .identifier (guard %s) or [\"escaped literal\"]" % (name, guard))
+        else:
+            rule.bad(V(rule.id, fn.qname, "filter-shape:%s:%s" % (name, frame), "filter %s has an unexpected shape (frames %r / %r)" % (name, iframe, frame)))
     return eff
 
 
